@@ -39,6 +39,7 @@ var junks = []junk{
 	{name: "yaml-without-kind", ext: ".yaml", document: true, severe: true, marker: "zznokind", content: "apiVersion: v1\nmetadata: {name: zznokind}\n"},
 	{name: "netpol-failing-schema", ext: ".yaml", document: true, severe: true, marker: "zzbadnp", content: "apiVersion: networking.k8s.io/v1\nkind: NetworkPolicy\nmetadata: {name: zzbadnp, namespace: ns1}\nspec:\n  podSelector: {}\n  ingress: not-a-list\n"},
 	{name: "deployment-failing-schema", ext: ".yaml", document: true, severe: true, marker: "zzbaddep", content: "apiVersion: apps/v1\nkind: Deployment\nmetadata: {name: zzbaddep, namespace: ns1}\nspec:\n  replicas: many\n  template: {metadata: {labels: {app: zz}}, spec: {containers: [{name: c, image: x}]}}\n"},
+	{name: "deployment-failing-schema-under-status-only", ext: ".yaml", document: true, severe: true, marker: "zzbadstatus", content: "apiVersion: apps/v1\nkind: Deployment\nmetadata: {name: zzbadstatus, namespace: ns1}\nspec:\n  replicas: 1\n  selector: {matchLabels: {app: zz}}\n  template: {metadata: {labels: {app: zz}}, spec: {containers: [{name: c, image: x}]}}\nstatus:\n  replicas: three\n"},
 	{name: "namespace-failing-schema", ext: ".yaml", document: true, severe: true, marker: "zzbadns", content: "apiVersion: v1\nkind: Namespace\nmetadata:\n  name: zzbadns\nspec:\n  finalizers: just-one\n"},
 	{name: "pod-failing-schema", ext: ".yaml", document: true, severe: true, marker: "zzbadpod", content: "apiVersion: v1\nkind: Pod\nmetadata: {name: zzbadpod, namespace: ns1}\nspec:\n  containers: just-one\n"},
 	{name: "service-failing-schema", ext: ".yaml", document: true, severe: true, marker: "zzbadsvc", content: "apiVersion: v1\nkind: Service\nmetadata: {name: zzbadsvc, namespace: ns1}\nspec:\n  selector: {app: b}\n  ports: not-a-list\n"},
@@ -245,6 +246,7 @@ func runDiff(d1, d2 string, stop bool) outcome {
 
 var cleanDirs []string // per world: the junk-free directory
 var otherDir string    // the fixed other side of diffs
+var otherWorld *wm.World
 
 func eval(cs Case, x *fw.Rec) {
 	ws := worlds()
@@ -269,6 +271,35 @@ func eval(cs Case, x *fw.Rec) {
 		got, want = runList(dir, cs.Stop, true), runList(cleanDirs[cs.WI], false, true)
 	case "diff-dir1":
 		got, want = runDiff(dir, otherDir, cs.Stop), runDiff(cleanDirs[cs.WI], otherDir, false)
+	case "diff-both":
+		// the same documents injected into the other side too (as files of their own, under that directory)
+		odir := dir + "-other"
+		defer os.RemoveAll(odir)
+		ocs := cs
+		ocs.Place = make([]int, len(cs.Place))
+		for k := range ocs.Place {
+			ocs.Place[k] = 1 // own-file-last
+		}
+		if err := writeDir(odir, otherWorld, ocs); err != nil {
+			x.Fail("harness: cannot write directory", "", err.Error())
+			return
+		}
+		got, want = runDiff(dir, odir, cs.Stop), runDiff(cleanDirs[cs.WI], otherDir, false)
+		// each side's unreadable documents must be reported: the document is in both directories, so two entries name it
+		for _, ji := range cs.Junk {
+			if !junks[ji].severe || cs.Stop {
+				continue
+			}
+			n := 0
+			for _, e := range got.errs {
+				if (e.severe || e.fatal) && (strings.Contains(e.text, junks[ji].marker) || strings.Contains(e.text, "junk")) {
+					n++
+				}
+			}
+			if n < 2 {
+				x.Fail("diff: malformed documents in both directories: one side's are not reported", "", fmt.Sprintf("%s: %d severe entries name %s, expected one per directory\nErrors(): %v", cs.Desc, n, junks[ji].name, len(got.errs)))
+			}
+		}
 	default:
 		got, want = runDiff(otherDir, dir, cs.Stop), runDiff(otherDir, cleanDirs[cs.WI], false)
 	}
@@ -401,12 +432,12 @@ func Run(r *fw.Run) {
 	}
 	otherDir = filepath.Join(fw.Scratch, "c13-other")
 	os.MkdirAll(otherDir, 0o755)
-	other := &wm.World{NSs: ws[0].NSs, WLs: ws[0].WLs[:2], NPs: []wm.NP{{NS: "ns1", Name: "deny", PodSel: wm.Sel{}, Types: []string{"Ingress"}}}}
-	os.WriteFile(filepath.Join(otherDir, "all.yaml"), []byte(strings.Join(other.YAMLDocs(), "---\n")), 0o644)
+	otherWorld = &wm.World{NSs: ws[0].NSs, WLs: ws[0].WLs[:2], NPs: []wm.NP{{NS: "ns1", Name: "deny", PodSel: wm.Sel{}, Types: []string{"Ingress"}}}}
+	os.WriteFile(filepath.Join(otherDir, "all.yaml"), []byte(strings.Join(otherWorld.YAMLDocs(), "---\n")), 0o644)
 	// the directories stay until the process ends (violations are re-executed when the run finishes); the scratch root is removed on exit
 	fw.Explore(r, "junk-injection", fw.Full, func(c *fw.Ctx) Case {
 		wi := c.Choose(len(ws), "world")
-		cmd := fw.Pick(c, []string{"list", "diff-dir1", "diff-dir2", "list-exposure"}, "command")
+		cmd := fw.Pick(c, []string{"list", "diff-dir1", "diff-dir2", "list-exposure", "diff-both"}, "command")
 		if cmd == "list-exposure" && (len(ws[wi].ANPs) > 0 || ws[wi].BANP != nil) {
 			c.Skip() // exposure analysis refuses admin policies
 		}
@@ -420,6 +451,9 @@ func Run(r *fw.Run) {
 		prev := -1
 		for k := 0; k < n; k++ {
 			ji := c.Choose(len(junks), "junk")
+			if junks[ji].native != "" && cmd == "diff-both" {
+				c.Skip() // the recorded finding is classified on the one-sided commands
+			}
 			if ji < prev || (ji == prev && junks[ji].native != "") {
 				c.Skip() // unordered subsets; the same foreign-group document twice would be two policies of one name
 			}
